@@ -32,8 +32,15 @@ DocsW == << A3(I(3), I(1), I(2)),
             A3(A1(I(1)), A2(I(2), I(3)), I(4)) >>
 Pairs2 == {<<p, q>> \in (1..Len(Pool)) \X (1..Len(Pool)) : p <= q}
 Src(e) == Render(UnparseMin(e), "tight")
-Out == SetToSeq({[k |-> "workload", e1 |-> Src(Pool[pq[1]]), e2 |-> Src(Pool[pq[2]]), p |-> pq[1], q |-> pq[2], d |-> d, doc |-> DocsW[d],
-                  allowed1 |-> Outcomes(Pool[pq[1]], DocsW[d]), allowed2 |-> Outcomes(Pool[pq[2]], DocsW[d])] : pq \in Pairs2, d \in 1..Len(DocsW)})
+(* two kinds of workload: two expressions on ONE shared document (doc2 absent), and ONE shared compiled expression on
+   two different documents (same expression, doc2 present) -- a result that leaks from one goroutine's call into the
+   other's shows only in the second kind *)
+Shared == {[k |-> "workload", e1 |-> Src(Pool[pq[1]]), e2 |-> Src(Pool[pq[2]]), p |-> pq[1], q |-> pq[2], d |-> d, d2 |-> 0, doc |-> DocsW[d], doc2 |-> <<>>,
+            allowed1 |-> Outcomes(Pool[pq[1]], DocsW[d]), allowed2 |-> Outcomes(Pool[pq[2]], DocsW[d])] : pq \in Pairs2, d \in 1..Len(DocsW)}
+TwoDocs == {[k |-> "workload", e1 |-> Src(Pool[p]), e2 |-> Src(Pool[p]), p |-> p, q |-> p, d |-> dd[1], d2 |-> dd[2], doc |-> DocsW[dd[1]], doc2 |-> DocsW[dd[2]],
+             allowed1 |-> Outcomes(Pool[p], DocsW[dd[1]]), allowed2 |-> Outcomes(Pool[p], DocsW[dd[2]])] :
+               p \in 1..Len(Pool), dd \in {x \in (1..Len(DocsW)) \X (1..Len(DocsW)) : x[1] < x[2]}}
+Out == SetToSeq(Shared \cup TwoDocs)
 ASSUME PrintT(<<"GEN", "workloads", Len(Out)>>) /\ ndJsonSerialize(OutFile, Out)
 VARIABLE x
 Init == x = 0
